@@ -217,15 +217,13 @@ fn search_n<const N: usize>() {
     let q = nd::u8();
     vpost!("C20.contains.agrees_with_membership", a.contains(&x) == mem(&a.0, x));
     let f = a.find_first_following(&x);
-    match f {
-        Some(r) => {
-            vpost!("C20.find_first_following.is_a_member_not_smaller", *r >= x && mem(&a.0, *r));
-            vpost!("C20.find_first_following.is_the_least_such", !(q >= x && q < *r && mem(&a.0, q)));
-        }
-        None => {
-            vpost!("C20.find_first_following.none_iff_all_smaller", !(q >= x && mem(&a.0, q)));
-        }
-    }
+    let (member_not_smaller, least_such, none_ok) = match f {
+        Some(r) => (*r >= x && mem(&a.0, *r), !(q >= x && q < *r && mem(&a.0, q)), true),
+        None => (true, true, !(q >= x && mem(&a.0, q))),
+    };
+    vpost!("C20.find_first_following.is_a_member_not_smaller", member_not_smaller);
+    vpost!("C20.find_first_following.is_the_least_such", least_such);
+    vpost!("C20.find_first_following.none_iff_all_smaller", none_ok);
     vcover!("search.found_exact", N == 0 || f == Some(&x));
     vcover!("search.found_greater", N == 0 || matches!(f, Some(r) if *r > x));
     vcover!("search.none", f.is_none());
